@@ -32,6 +32,7 @@ import (
 	"github.com/prometheus/prometheus/promql/parser"
 	"github.com/prometheus/prometheus/rules"
 	"github.com/prometheus/prometheus/storage"
+	"github.com/prometheus/prometheus/tsdb"
 	"github.com/prometheus/prometheus/util/teststorage"
 
 	"verif/harness/internal/gallina"
@@ -46,7 +47,7 @@ const (
 	nRuleNames = 6  // r0..r5  -> name ids 10..15
 	ruleBase   = 10 //
 	nVals      = 4  // x0..x3
-	encOff     = int64(1) << 40
+	encOff     = int64(1) << 20
 	wallBase   = int64(50_000_000)
 )
 
@@ -292,7 +293,7 @@ func (s *sut) Appender(ctx context.Context) storage.Appender {
 func (s *sut) violf(f string, a ...any) { s.viol = append(s.viol, fmt.Sprintf(f, a...)) }
 
 func newSut(eng *promql.Engine, metrics *rules.Metrics) (*sut, error) {
-	st, err := teststorage.NewWithError()
+	st, err := teststorage.NewWithError(func(o *tsdb.Options) { o.WALSegmentSize = -1 })
 	if err != nil {
 		return nil, err
 	}
@@ -554,6 +555,14 @@ func ints(vs ...int64) string {
 	return "[" + strings.Join(it, ";") + "]"
 }
 
+// encT: timestamps / offsets are printed as they are (non-negative on the unchanged tree)
+func encT(t int64) int64 {
+	if t < 0 || t >= 1<<60 {
+		return 1 << 61 // absurd value -> mismatch on the Coq side
+	}
+	return t
+}
+
 func enc(v int64) int64 {
 	if v <= -encOff || v >= encOff {
 		return 2*encOff + 1 // decodes to an absurd value on the Coq side -> mismatch
@@ -586,25 +595,25 @@ func (p *printer) op(o op) string {
 		if o.Stale {
 			v = 0
 		}
-		return ints(0, int64(p.idx(o.L)), enc(o.T), v)
+		return ints(0, int64(p.idx(o.L)), encT(o.T), v)
 	case "load":
-		vs := []int64{1, int64(o.G), enc(o.Off), int64(o.Limit)}
+		vs := []int64{1, int64(o.G), encT(o.Off), int64(o.Limit)}
 		for _, r := range o.Rules {
 			vs = append(vs, int64(r.Name), int64(p.idx(r.Labels)), int64(r.E.Name), int64(r.E.MK), int64(r.E.MV),
 				b2i(r.E.By), int64(r.E.ByMask), enc(r.E.Mul), enc(r.E.Add), b2i(r.E.GT), enc(r.E.GTV))
 		}
 		return ints(vs...)
 	case "eval":
-		return ints(2, int64(o.G), enc(o.T))
+		return ints(2, int64(o.G), encT(o.T))
 	case "remove":
-		return ints(3, int64(o.G), enc(o.T))
+		return ints(3, int64(o.G), encT(o.T))
 	}
 	panic("op kind")
 }
 
 func (p *printer) recs(vs []int64, rs []arec) []int64 {
 	for _, r := range rs {
-		vs = append(vs, int64(p.idxLabels(r.L)), enc(p.s.canonT(r.T)), p.encVal(r.V), int64(r.Code))
+		vs = append(vs, int64(p.idxLabels(r.L)), encT(p.s.canonT(r.T)), p.encVal(r.V), int64(r.Code))
 	}
 	return vs
 }
@@ -1101,7 +1110,7 @@ func main() {
 		for _, d := range s.dump() {
 			vs := []int64{int64(p.idxLabels(d.L))}
 			for i := range d.Ts {
-				vs = append(vs, enc(s.canonT(d.Ts[i])), p.encVal(d.Vs[i]))
+				vs = append(vs, encT(s.canonT(d.Ts[i])), p.encVal(d.Vs[i]))
 			}
 			stStr = append(stStr, ints(vs...))
 		}
